@@ -28,7 +28,7 @@ ASSUMPTIONS = [
 ]
 ANCHORS = ["dagrt.language:ExecutionController.update_plan", "dagrt.language:ExecutionController.__call__",
            "dagrt.exec_numpy:NumpyInterpreter.run_single_step"]
-MIN_NONTRIVIAL = {"quick": 10000, "thorough": 150000}
+MIN_NONTRIVIAL = {"quick": 10000, "thorough": 1050000}
 REQUIRED_COUNTERS = {"quick": ["steps_controller", "steps_interpreter", "visits_checked", "dynamic_requests",
                                "hook_state_checks"],
                      "thorough": ["steps_controller", "steps_interpreter", "visits_checked", "dynamic_requests",
@@ -38,12 +38,12 @@ SHARD_TIMEOUT = {"quick": 900, "thorough": 3000}
 
 def plan(tier, seed):
     sh = []
-    per = 1500 if tier == "quick" else 20000
+    per = 1500 if tier == "quick" else 200000
     for k in range(12):
         sh.append({"kind": "ctl", "seed": f"C04:{seed}:{k}", "count": per, "hashseed": k % 4})
     for k in range(4):
         sh.append({"kind": "exh", "k": k, "n": 4, "maxn": 3 if tier == "quick" else 4, "hashseed": k})
-    per2 = 300 if tier == "quick" else 4000
+    per2 = 300 if tier == "quick" else 40000
     for k in range(8):
         sh.append({"kind": "e2e", "seed": f"C04:{seed}:e{k}", "count": per2, "hashseed": k % 4})
     return sh
